@@ -193,16 +193,17 @@ Proof.
   exists r'. split; assumption.
 Qed.
 
-(* F6: C03_copyregion_fits is not implied by the code.  rfbSendCopyRegion appends 16 bytes per
-   rectangle with no check; it fits only up to (UPDATE_BUF_SIZE - 4) / 16 rectangles *)
-Theorem C03_copyregion_fits_partial : forall n, 0 <= n ->
-  n <= (UPDATE_BUF_SIZE - sz_FramebufferUpdateMsg) / (sz_FramebufferUpdateRectHeader + sz_CopyRect) ->
-  copyregion_fits sz_FramebufferUpdateMsg n = true.
-Proof. exact copyregion_fits_small. Qed.
+(* F6 (repaired in /repo by e68aae9): rfbSendCopyRegion now flushes before the next 16 bytes would
+   not fit; C03_copyregion_fits holds for EVERY number of copy rectangles and every starting fill
+   level: the highest offset written to and the final cl->ublen stay within updateBuf.
+   (Before the repair 2048 rectangles wrote past the buffer: witness corpus/C03/F6_copyregion_overflow.script.) *)
+Theorem C03_copyregion_fits : forall n u, 0 <= u <= UPDATE_BUF_SIZE ->
+  0 <= copy_peak n u <= UPDATE_BUF_SIZE /\ 0 <= copy_ublen n u <= UPDATE_BUF_SIZE.
+Proof. exact copy_peak_inside. Qed.
 
-Theorem C03_copyregion_overflow_refuted :
-  exists n, copyregion_fits sz_FramebufferUpdateMsg n = false /\ n = 2048.
-Proof. exists 2048. split; reflexivity. Qed.
+Example C03_copyregion_fits_nonvacuous :
+  copy_peak (Z.to_nat 2080) sz_FramebufferUpdateMsg = 32756 /\ copy_ublen (Z.to_nat 2080) sz_FramebufferUpdateMsg = 528.
+Proof. exact copy_peak_example. Qed.
 
 (* ---- C03_caps: the SetEncodings state machine ----
    [reach g latest c]: c is the capability state after ANY history of client messages, application
@@ -242,10 +243,20 @@ Example C03_caps_cursorpos_nonvacuous :
   c_cursorpos (fst (set_encodings (mkCfg false false false false false) caps_init [enc_PointerPos; enc_XCursor])) = true.
 Proof. split; reflexivity. Qed.
 
-(* F21 (finding): unlike every other capability, enableExtendedClipboard survives a SetEncodings
-   that no longer names it.  Full statement "c_extclip c' = true -> In enc_ExtendedClipboard latest"
-   is refuted for the code as it is (g_reset_extclip = false; props/C03.py sets the flag from the
-   source text, so that the model follows the repair notes/fix_C03_3.diff when it is applied): *)
+(* F21 (repaired in /repo by 2d15d75): SetEncodings now resets enableExtendedClipboard with the other
+   flags (g_reset_extclip = true; props/C03.py reads this from the source text on every run), and the
+   extended-clipboard capability follows the LATEST SetEncodings like every other one: *)
+Theorem C03_caps_extclip : forall g c l, g_reset_extclip g = true ->
+  c_extclip (fst (set_encodings g c l)) = true -> In enc_ExtendedClipboard l.
+Proof. exact set_encodings_extclip. Qed.
+
+Example C03_caps_extclip_nonvacuous :
+  let g := mkCfg false false true false true in
+  c_extclip (fst (set_encodings g caps_init [enc_ExtendedClipboard])) = true /\
+  c_extclip (fst (set_encodings g (fst (set_encodings g caps_init [enc_ExtendedClipboard])) [enc_Raw])) = false.
+Proof. split; reflexivity. Qed.
+
+(* ... whereas the code before the repair (g_reset_extclip = false) kept it on: *)
 Theorem C03_caps_extclip_refuted :
   exists g c l, c_extclip (fst (set_encodings g c l)) = true /\ ~ In enc_ExtendedClipboard l.
 Proof.
